@@ -38,6 +38,9 @@ CLAIMED = {
  "C16": dict(ref="7/C16", technique="Lean 4 theorems (causality by triangularity / strong induction, linearity via uniqueness of the triangular solve, per-label independence, calendar-shift invariance of bounds/dt/ages, impulse response) + dsm correspondence incl. unit impulses",
              text="Machine-checked proof: results at step t depend only on driver values at steps <= t; the maps driver -> stock/outflow/cohort tables are linear; the results at a label position equal those of the one-label model on that column; shifting all time items by a constant changes neither interval lengths nor ages; the response to a unit inflow in one cohort is that cohort's survival column times its interval length and leaves other labels untouched.",
              note="as C03"),
+ "C17": dict(ref="7/C17", technique="Lean 4 invariant proof over arbitrary operation histories (cache is absent or belongs to the current parameters), with the cache-reset behaviour of set_prms regenerated from the source by the translator + dsm-history correspondence (fresh object next to every compute)",
+             text="Machine-checked proof: for the state machine {set_prms, set driver, read sf, read pdf, compute} transcribed from lifetime_models.py/stocks.py, after any sequence of operations compute() yields exactly the results of a freshly built stock with the current parameters and driver, and a second compute() changes nothing. The proof needs that set_prms discards both cached tables; that fact is re-extracted from the AST on every run (theorem source_resets_caches), and a counterexample theorem shows the stale result otherwise (defect D4, fixed).",
+             note="abstract over the table-building functions (their correctness is C08/C03); the system-level loop is covered by the correspondence stream, which also builds stocks through StockDefinition/make_empty_stocks"),
 }
 
 def main():
